@@ -11,7 +11,7 @@ where `aa` = the AA level rules hold, `hb` = height ≤ 2·log2(n+1), `in` = in-
 `rel` = keys passed to the release callback during this op, shape = pre-order dump
 `(key:level left right)` with `.` for NIL.  Lists longer than 40 are printed as
 `#<n>:<fnv1a-64 hex>`.  `destroy`: `rel` sorted ascending, and ` ord=<keys in call order>`
-appended to the internal part. -/
+appended to the internal part.  `walk pre|post`: `w=<sorted keys> ## <keys in visiting order>`. -/
 open Usual Usual.C07
 
 namespace C07Drv
@@ -85,7 +85,9 @@ def doOp (s : State K) (o : Op K) : State K × String :=
       (s'', s!"{mutLine "destroy" s'' (rel.mergeSort (fun a b => decide (a ≤ b)))} ord={showKeys rel}")
   | .find _, .found none => (s'', "f=0")
   | .find _, .found (some x) => (s'', s!"f=1:{x}")
-  | .walk _, .keys l => (s'', s!"w={showKeys l}")
+  | .walk .inOrder, .keys l => (s'', s!"w={showKeys l}")
+  -- pre/post-order: visited set observable (sorted), visiting order internal
+  | .walk _, .keys l => (s'', s!"w={showKeys (l.mergeSort (fun a b => decide (a ≤ b)))} ## {showKeys l}")
   | .count, .num n => (s'', s!"c={n}")
   | _, _ => (s'', "model-error")
 
